@@ -140,6 +140,19 @@ CLAIMED["C26"] = dict(
     technique="contract-based deductive verification against a recursive spec function (one-level unfolding axioms), SMT-discharged; bounded stand-in",
 )
 
+CLAIMED["C20"] = dict(
+    category="exploration",
+    text="Bounded (exhaustive within the bound): the real ParallelMovPattern is applied to EVERY move graph over 3 integer / 2 float registers (quick; "
+         "4 / 3 thorough): every destination subset x every source assignment (chains, fan-outs, cycles, self-moves), free-register sets, float widths, "
+         "plus seeded mixed graphs; the emitted mv/fmv/xor sequence is executed on a register machine and compared with the simultaneous assignment, "
+         "the no-clobber clause and the failure rule. The xor-swap kernel _insert_swap_ops is under a discharged contract (pyvc + z3). Exploration is "
+         "the honest level: the traversal in match_and_rewrite is not proved.",
+    note="Bounded stand-in, never counted as proved. Two known findings (integer cycles of length >= 3 without scratch are lowered to the inverse rotation; "
+         "pure source registers are used as scratch).",
+    design="§4 C20",
+    technique="bounded exhaustive runtime-contract check on a register-machine model (stand-in) + discharged contract on the xor-swap kernel",
+)
+
 NOT_APPLICABLE = {
     "C04": "whole Printer∘Parser composition over every dialect: recursive string programs; no per-function contract within reach of the SMT-backed generator expresses it",
     "C05": "about 80 dialects of hand-written print/parse pairs and a format-string interpreter; same obstacle as C04",
@@ -153,7 +166,7 @@ NOT_APPLICABLE = {
     "C28": "result preservation of an e-graph pipeline: whole-program statement with no per-function postcondition implying it",
 }
 
-NOT_REACHED = ["C02", "C06", "C09", "C11", "C14", "C18", "C19", "C20", "C25"]
+NOT_REACHED = ["C02", "C06", "C09", "C11", "C14", "C18", "C19", "C25"]
 
 
 def main():
